@@ -22,6 +22,7 @@ type SideDef struct {
 	Label    string   `json:"label"`   // "bounded" | "static" | "replay"
 	TimeoutS int      `json:"timeout_s"`
 	Tags     string   `json:"tags"`
+	Shims    []string `json:"shims"` // source files of /repo replaced by a mechanically rewritten copy (os.<effect> -> verifOS.<effect>)
 }
 
 type SideFailure struct {
@@ -66,6 +67,16 @@ func runSideCheckEnv(name, prop, tier string, seed int, extraEnv []string) *Side
 			dst = filepath.Join(repoDir, def.Pkg, fmt.Sprintf("zz_verif_side_%d.go", i))
 		}
 		ov["Replace"][dst] = filepath.Join(verifDir, f)
+	}
+	for i, src := range def.Shims {
+		dst := filepath.Join(work, fmt.Sprintf("shim_%d.go", i))
+		n, err := shimRewrite(filepath.Join(repoDir, src), dst)
+		if err != nil {
+			sr.Broken = "shim rewrite of " + src + ": " + err.Error()
+			return sr
+		}
+		sr.Evidence["shim_rewrites_"+src] = n
+		ov["Replace"][filepath.Join(repoDir, src)] = dst
 	}
 	ovb, _ := json.Marshal(ov)
 	ovPath := filepath.Join(work, "overlay.json")
